@@ -192,7 +192,10 @@ def run_one(ck, case, reqs, pending):
                 and sorted(canon_path(p) for p in snap1["e"].values()) == sorted(canon_path(p) for p in snap2["e"].values()))
         if not same:
             sig = "second-pass-merges-new-two-point-border-interfaces" if (replace and ncand2 > 0) else None
-            if sig is None and replace and chain:
+            only_duplicate_edges = ({k: val[:2] for k, val in snap1["v"].items()} == {k: val[:2] for k, val in snap2["v"].items()}
+                                    and snap1["c"] == snap2["c"]
+                                    and {canon_path(p) for p in snap1["e"].values()} == {canon_path(p) for p in snap2["e"].values()})
+            if sig is None and replace and chain and only_duplicate_edges:
                 # the first pass itself merged a chain (finding D17): it may leave two mesh edges joining the same pair, which the
                 # second pass rebuilds as one
                 sig = "merge-chain-of-two-point-border-interfaces"
